@@ -80,6 +80,16 @@ void h_set_batch_size(void) {
     V_CANARY();
 }
 
+#ifdef V_BT_UNIT
+void h_set_batch_timeout(void) {
+    build();
+    g_regtmr_ret = -(int)(vin_len % 200); g_mod->batch.timer.ns = vin_action_ctr; g_mod->batch.len = vin_batch_len;
+    int r = m_mod_set_batch_timeout(vin_null_mod ? NULL : g_mod, vin_sent_msgs);
+    V_COVER("bt-first-time", r == 0 && vin_action_ctr == 0 && vin_sent_msgs == 1000 && vin_batch_len == 0); V_COVER("bt-reconfigure", g.deregtmr_calls == 1 && g.regtmr_calls == 1);
+    V_COVER("bt-off-after-time-only-batching", r == 0 && vin_sent_msgs == 0 && vin_batch_len == SIZE_MAX && vin_action_ctr != 0); V_COVER("bt-off-with-size", r == 0 && vin_sent_msgs == 0 && vin_batch_len == 5);
+    V_CANARY();
+}
+#endif
 /* keeps the symbols of callee contracts that the current code does not call (a replaced callee must exist in the goto model);
  * they are in the replace lists so that a change which starts calling them is still analysed instead of ending "undecided" */
 void v_keep_symbols(void) { (void)m_stack_peek(NULL); (void)m_stack_len(NULL); }
